@@ -157,6 +157,8 @@ class _Ctx:
     def without_stmts(self):
         ctx = _Ctx()
         ctx.env = dict(self.env)
+        # rounding properties are inherited by everything nested in the expression
+        ctx.props = dict(self.props)
         return ctx
 
 
@@ -421,7 +423,7 @@ class _FPCore2FPy:
         # create loop body
         loop_env = dict(env)
         stmts: list[Stmt] = []
-        update_ctx = _Ctx(env=env, stmts=stmts)
+        update_ctx = _Ctx(env=env, props=ctx.props, stmts=stmts)
         for var, _, update in e.while_bindings:
             # compile value
             update_e = self._visit(update, update_ctx)
@@ -659,13 +661,15 @@ class _FPCore2FPy:
         return self._visit(e.body, body_ctx)
 
     def _visit_ctx(self, e: fpc.Ctx, ctx: _Ctx) -> Expr:
-        # compile body
-        val_ctx = ctx.without_stmts()
-        val = self._visit(e.body, val_ctx)
-
-        # compile properties to a context
+        # compile properties to a context: the annotation updates the
+        # properties it names and inherits the rest from its surroundings
         props = self._visit_props(e.props, ctx)
         fpc_ctx = FPCoreContext(**props)
+
+        # compile body (under the updated properties)
+        val_ctx = ctx.without_stmts()
+        val_ctx.props = props
+        val = self._visit(e.body, val_ctx)
 
         # try to convert to a native FPy context
         try:
@@ -804,7 +808,7 @@ class _FPCore2FPy:
 
         # compile 
         props = self._visit_props(f.props, ctx)
-        ctx.props = props
+        ctx.props = dict(props)
 
         # possibly generate context
         if 'precision' in props:
